@@ -262,9 +262,9 @@ def run(ctx):
            sites=[ctx.where(b, s.line) for b, s in cons])
 
     # ---- R01.8 initial ledger ----------------------------------------------
-    fb = prog.body('deadpool::managed::Pool::from_builder')
+    fb = r.CONSTRUCTOR
     if fb is None:
-        ctx.undecide('R01.8', 'Pool::from_builder not found')
+        ctx.undecide('R01.8', 'the function constructing the pool state was not found')
     else:
         ctx.saw(fb)
         fan = prog.an(fb)
